@@ -302,11 +302,17 @@ func (h *Harness) nextSerial() int {
 // refFor resolves a token to a reference; tokens that were never spawned get an address nobody owns.
 // names of the scripted actors: every other one starts with "sub" — /user/sub is the subscription actor's address, and an
 // address that merely begins like it (/user/sub3, /user/subghost9) is an ordinary actor's (or nobody's) address
+// Names of the same parity are prefixes of one another (n0, n02, n024 / sub1, sub13, sub135): siblings — and top-level
+// actors — whose addresses extend each other as STRINGS without being related in the tree.
 func tokName(t int) string {
+	s := "n"
 	if t%2 == 1 {
-		return fmt.Sprintf("sub%d", t)
+		s = "sub"
 	}
-	return fmt.Sprintf("n%d", t)
+	for k := t % 2; k <= t; k += 2 {
+		s += fmt.Sprint(k)
+	}
+	return s
 }
 func ghostName(t int) string {
 	if t%2 == 1 {
